@@ -63,7 +63,7 @@ def leaves():
         for c in (200, 500, 502, 503, 504):
             out.append({"k": "code", "op": op, "c": c})
     for op in ("==", "!="):
-        for m in ("GET", "POST"):
+        for m in ("GET", "POST", "get", "Post", "GET ", "PUT"):     # method tokens are case-sensitive; blanks count
             out.append({"k": "method", "op": op, "m": m})
     return out
 
